@@ -656,6 +656,8 @@ class Progress(JupyterMixin, RenderHook):
             if self._started:
                 return
             self._started = True
+            # a display that is started again must not erase what an earlier run left on screen
+            self._live_render._shape = None
             self.console.show_cursor(False)
             self._enable_redirect_io()
             self.console.push_render_hook(self)
